@@ -130,6 +130,8 @@ def run(ctx):
                     p.pop("clockq", None)
                     p.pop("clock0", None)
                     p["obj"] = rng.choice([0, 1, 2, 3, 4, 5])
+                    if nm == "NLOPT_LD_CCSAQ" and rng.random() < 0.4:
+                        p["pre"] = 1
                     if rng.random() < 0.15:
                         p["inj"] = "%d:%s" % (rng.randrange(1, N + 2), rng.choice(["7ff8000000000000", "7ff0000000000000", "fff0000000000000", hexd(1e300)]))
                     ps.append(p)
@@ -147,6 +149,31 @@ def run(ctx):
         env = dict(os.environ)
         env["HRUN_TIMEOUT"] = "10"
         batch = runcheck.run_batch(ctx, bdir, A, ps, [mon_limits, monitors.mon_counts], "limits, all algorithms", env=env)
+        # history: an ordinary run, then every coordinate fixed at the result and a second run on the SAME object:
+        # the counter must be exactly the evaluations of the second run (one, for the algorithms that eliminate fixed coordinates)
+        hs = []
+        for nm in problems.ALL:
+            for _ in range(4 if ctx.thorough else 1):
+                p = problems.gen_problem(rng, A, alg_name=nm, maxeval=rng.choice([5, 20, 40]), with_constraints=False, box="finite")
+                for k in ("maxtime", "clockq", "clock0", "stopval"):
+                    p.pop(k, None)
+                p["runs"] = 2
+                p["reseed"] = 1
+                p["fixall2"] = 1
+                hs.append(p)
+        hruns, _ = swrap.run_specs(bdir, [problems.to_line(p) for p in hs], env=env)
+        nh = 0
+        for r in hruns:
+            if r.status != "ok" or r.R is None or "ret" not in r.R:
+                continue
+            ri = monitors.RunInfo(r, A)
+            nh += 1
+            ctx.case(r.spec + "#%d" % getattr(r, "part", 1))
+            v = monitors.mon_counts(ri)
+            if v:
+                v[0]["history"] = "second run after all coordinates were fixed" if getattr(r, "part", 1) == 2 else "first run"
+                ctx.violation(v[0], v[1] + " (run %d of the history)" % getattr(r, "part", 1), {"stream": "run", "spec": r.spec})
+        ctx.corr["history: run, fix all coordinates, run again"] = {"runs": nh}
         worst = {}
         for p, r, ri in batch:
             if ri is not None and ri.maxeval > 0:
